@@ -119,7 +119,7 @@ def stage(profile, worker_prop, scale=1.0, **kw):
 
 PLANS = {
 }
-for _p in ("C01", "C02", "C03", "C04", "C05", "C06", "C07", "C08", "C09", "C11", "C13", "C16"):
+for _p in ("C01", "C02", "C03", "C04", "C05", "C06", "C07", "C08", "C09", "C10", "C11", "C12", "C13", "C14", "C16", "C20"):
     PLANS[_p] = [stage("dbg", _p)]
 
 LEVEL_TEXT = {}
@@ -170,7 +170,7 @@ def merge(summaries):
         "violations": [], "known_hits": {}, "samples": [], "inconclusive": [],
         "notes": [], "early_stop": False, "unsafe_site_hits": None,
         "unsafe_precondition_failures": 0, "cache_writes": 0,
-        "cache_replacements": 0, "rule": "",
+        "cache_replacements": 0, "rule": "", "kv": {}, "exhaustive_cases": 0,
     }
     for s in summaries:
         m["cases"] += s["cases"]
@@ -198,6 +198,9 @@ def merge(summaries):
         m["cache_writes"] += s.get("cache_writes", 0)
         m["cache_replacements"] += s.get("cache_replacements", 0)
         m["rule"] = s.get("rule", m["rule"])
+        m["exhaustive_cases"] += s.get("exhaustive_cases", 0)
+        for k, v in s.get("kv_log", []):
+            m["kv"].setdefault(k, {}).setdefault(v, set()).add(s.get("shard", 0))
     return m
 
 
@@ -287,9 +290,28 @@ def run_property(prop, tier, seed):
             sums, errs = mod.run_stage(st, prop, tier, seed, binaries, outdir)
         infra_errors.extend(errs)
         m = merge(sums)
+        # cross-process log must be a function: same key => same value
+        xkeys = len(m["kv"])
+        xprocs = max((sum(len(p) for p in vals.values()) for vals in m["kv"].values()), default=0)
+        for k, vals in m["kv"].items():
+            if len(vals) > 1:
+                os.makedirs(REPLAYS, exist_ok=True)
+                path = os.path.join(REPLAYS, f"{prop}-xproc-{k}.json")
+                with open(path, "w") as f:
+                    json.dump({"property": prop, "clause": "value_differs_across_processes",
+                               "kind": "cross_process", "key": k,
+                               "values": {v: sorted(p) for v, p in vals.items()},
+                               "detail": "the same case produced different values in different worker processes; re-run bin/check " + prop},
+                              f, indent=1)
+                m["violations"].append({"clause": "value_differs_across_processes",
+                                        "detail": f"key {k}: values {sorted(vals)}", "replay": path,
+                                        "case_index": -1})
         stage_reports.append({
             "stage": f"{st['kind']}:{st['profile']}:{st['prop']}",
             "cases": m["cases"],
+            "exhaustive_cases": m["exhaustive_cases"],
+            "cross_process_keys": xkeys,
+            "cross_process_max_processes_per_key": xprocs,
             "distinct_nontrivial": len(m["nontrivial"]),
             "classes": m["classes"],
             "counters": m["counters"],
